@@ -18,6 +18,7 @@ import (
 
 	"verif/mc/engines/e4"
 	"verif/mc/hx"
+	"verif/mc/sched"
 )
 
 type Ctx struct {
@@ -50,13 +51,13 @@ func (c *Ctx) mine() bool {
 
 // Case is the witness format: an input, a configuration, how it is run.
 type Case struct {
-	Cfg    [8]uint64 `json:"cfg"`
-	Src    string    `json:"src"`
-	Mode   string    `json:"mode"`              // sync | fine | free
-	Prefix []int     `json:"choices,omitempty"` // explorer choice list (schedule / chunking / map orders)
-	Chunk  bool      `json:"chunked_reader,omitempty"`
-	Budget int64     `json:"budget,omitempty"`
-	Note   string    `json:"note,omitempty"`
+	Cfg    [8]uint64     `json:"cfg"`
+	Src    string        `json:"src"`
+	Mode   string        `json:"mode"`              // sync | fine | free
+	Prefix sched.Choices `json:"choices,omitempty"` // explorer choice list (schedule / chunking / map orders)
+	Chunk  bool          `json:"chunked_reader,omitempty"`
+	Budget int64         `json:"budget,omitempty"`
+	Note   string        `json:"note,omitempty"`
 }
 
 func (k *Case) witness() string {
@@ -295,4 +296,65 @@ func (c *Ctx) RunFree(tier string) {
 	}
 	rep.Bound = fmt.Sprintf("free-running plain build: every lexeme string of length <=%d over 24 lexemes; the short seeds and every 1-token mutation; goroutine count before/after each call with a 2 s grace period, 30 s watchdog per call", n)
 	rep.Sample(Join([]string{"x", "equ", "x", "+", "1", "\n", ";assert", "x"}))
+}
+
+// ForFactor is a conservative over-estimate of the product of the FOR counts
+// of a source text (the property bounds it): per line containing the word
+// "for", the number formed by all digits on that line and on the EQU lines of
+// the identifiers it mentions.
+func ForFactor(src string) int {
+	lines := strings.Split(src, "\n")
+	digits := func(l string) int {
+		v := 0
+		for _, r := range l {
+			if r >= '0' && r <= '9' {
+				v = v*10 + int(r-'0')
+				if v > 1000000 {
+					return 1000000
+				}
+			}
+		}
+		return v
+	}
+	equ := map[string]int{}
+	for _, l := range lines {
+		f := strings.Fields(strings.ToLower(l))
+		for i, w := range f {
+			if w == "equ" {
+				d := digits(l)
+				for _, name := range f[:i] {
+					if d > equ[name] {
+						equ[name] = d
+					}
+				}
+			}
+		}
+	}
+	factor := 1
+	for _, l := range lines {
+		low := strings.ToLower(l)
+		isFor := false
+		for _, w := range strings.FieldsFunc(low, func(r rune) bool { return !(r == '_' || r == '.' || (r >= 'a' && r <= 'z') || (r >= '0' && r <= '9')) }) {
+			if w == "for" {
+				isFor = true
+			}
+		}
+		if !isFor {
+			continue
+		}
+		n := digits(l)
+		for _, w := range strings.FieldsFunc(low, func(r rune) bool { return !(r == '_' || (r >= 'a' && r <= 'z') || (r >= '0' && r <= '9')) }) {
+			if d, ok := equ[w]; ok && d > n {
+				n = d
+			}
+		}
+		if n < 1 {
+			n = 1
+		}
+		factor *= n
+		if factor > 1000000 {
+			return 1000000
+		}
+	}
+	return factor
 }
